@@ -1,4 +1,5 @@
 """C14 — both story loaders build the same story from the same JSON."""
+import glob
 import json
 import os
 import random
@@ -124,6 +125,45 @@ def layouts(doc):
     yield "pretty-tabs", json.dumps(doc, ensure_ascii=True, indent="\t", separators=(" ,\r\n", " : "))
 
 
+def runtime_only(ctx, docs):
+    """Both loaders in a host that links the runtime crate ALONE (cargo unifies features over a build:
+    the harness links the compiler, which switches serde_json's preserve_order on for everybody)."""
+    with common.BuildLock():
+        common.build_rtonly(False)
+        common.build_rtonly(True)
+    paths = []
+    for i, (origin, doc) in enumerate(docs):
+        p = ctx.path(f"rtonly-{i}.json")
+        json.dump(doc, open(p, "w", encoding="utf-8"), ensure_ascii=False)
+        paths.append(p)
+    for f in sorted(glob.glob(os.path.join(common.ROOT, "corpus", "c14", "*.json"))):
+        paths.append(f)
+    lst = ctx.path("rtonly.list")
+    open(lst, "w").write("\n".join(paths) + "\n")
+    outs = {}
+    for stream in (False, True):
+        r = subprocess.run([common.rtonly_bin(stream), lst], capture_output=True, text=True, timeout=1800)
+        blocks, cur = {}, None
+        for line in r.stdout.split("\n"):
+            if line.startswith("DOC "):
+                cur = line[4:]
+                blocks[cur] = []
+            elif cur is not None and line:
+                blocks[cur].append(line)
+        outs[stream] = blocks
+    for p in paths:
+        a, b = outs[False].get(p), outs[True].get(p)
+        ctx.case("rtonly:" + p, bool(a) and any(l.startswith("LINE") for l in a))
+        ctx.count("runtime_only_documents")
+        if a != b or a is None or any(l == "PANIC" for l in (a or [])):
+            k = next((i for i, (x, y) in enumerate(zip(a or [], b or [])) if x != y), min(len(a or []), len(b or [])))
+            ctx.violation("oracle", {"document": open(p, encoding="utf-8").read()[:20000] if os.path.getsize(p) < 20000 else p,
+                                     "default_loader": (a or ["<no output>"])[max(0, k - 1): k + 2],
+                                     "streaming_loader": (b or ["<no output>"])[max(0, k - 1): k + 2],
+                                     "why": "in a host that links only the runtime crate the two loaders play this document differently"},
+                          signature={"kind": "runtime-only", "doc": os.path.basename(p)})
+
+
 def run(ctx):
     quick = ctx.tier == "quick"
     rng = random.Random(ctx.seed * 911 + 7)
@@ -139,6 +179,9 @@ def run(ctx):
     for prof, n in (("hostile_text", 12 if quick else 200), ("core", 6 if quick else 100), ("lists", 6 if quick else 100)):
         for s in stories.generated_pool(ctx, prof, n):
             docs.append(("generated-" + prof, json.load(open(s["path"], encoding="utf-8"))))
+    for f in sorted(glob.glob(os.path.join(common.ROOT, "corpus", "c14", "*.json"))):
+        docs.append(("probe", json.load(open(f, encoding="utf-8"))))
+    runtime_only(ctx, [d for d in docs if len(json.dumps(d[1])) < 200000])
     jobs = []
     idx = 0
     for origin, doc in docs:
